@@ -10,6 +10,7 @@ G0135   == {0, 1, 3, 5}
 G15     == {1, 5}
 G1_30   == {1, 30}
 G1230   == {1, 2, 30}
+G1530   == {1, 5, 30}
 G013530 == {0, 1, 3, 5, 30}
 One     == {1}
 OneTwo  == {1, 2}
